@@ -81,6 +81,32 @@ PROPS = {
             fuzz("load", "FuzzC05", 120),
         ],
     ),
+    "C11": dict(
+        technique="model-based PBT over jump histories: reference visit counter vs rendered visited()/visited_count() and Snapshot().VisitedNodes at every step; bounded all-paths enumeration",
+        level_text="Jump-heavy generated scripts (2-5 nodes, self-loops and cycles, jumps by name and by expression out of nested option/if bodies, failing jumps "
+                   "to unknown nodes, any subset of nodes with tracking: never/always) whose lines render visited_count and visited for every node and for a "
+                   "non-node; at every element the rendered values and Snapshot().VisitedNodes must equal the reference interpreter's count of completed leaves "
+                   "by jump per tracked node, and no count may decrease. Search, not proof.",
+        level_note="Trusts the reference interpreter; absent map entries are read as 0; after a failed jump both model and runner continue with the next statement.",
+        rule="scripts from the flow generator with jump-ending nodes x choice list; non-trivial = at least 3 jumps and (a count >= 2 or an untracked node left "
+             "through a jump); all-paths: every choice sequence (<= 64 paths) of such a script; distinct = distinct serialised cases.",
+        assumptions=["traces are cut at 60 elements (cyclic scripts never end)"],
+        subs=[
+            rapid("visits", "TestC11Visits", 2000, 20000),
+            rapid("all-paths", "TestC11AllPaths", 30, 400),
+        ],
+    ),
+    "C12": dict(
+        technique="model-based PBT: fault-free scripts driven to their end (stop at any depth / node end / end after an option group), then further Next calls with arbitrary arguments checked for the end marker and for absence of side effects on a recording storer and logging handlers",
+        level_text="Generated scripts biased towards <<stop>> inside nested bodies with statements remaining and towards ends right after option groups are driven "
+                   "to the first end; 1-6 further Next calls with arbitrary arguments (0, in range, out of range, negative, huge) must each return (nil, nil) "
+                   "without panic, storer write, host-function call or command dispatch. Search, not proof.",
+        level_note="Only runs whose trace up to the end agrees with the reference interpreter are used (anything else is C01's business and is discarded, counted).",
+        rule="acyclic scripts (forward jumps only, so every run ends) x choices x 1-6 arguments for the calls after the end; non-trivial = end by stop with "
+             "statements remaining or inside a nested body, or end directly after an option group; distinct = distinct serialised cases.",
+        assumptions=["'until a snapshot is restored' is C07's business"],
+        subs=[rapid("absorbing-end", "TestC12End", 2500, 25000)],
+    ),
     "C13": dict(
         technique="PBT with a constructive reference model (expected text/ranges computed from the generated segment structure) + small-scope enumeration",
         level_text="Lines are assembled from a segment grammar (text incl. multi-byte and edge whitespace, escapes, open/close/close-all/"
